@@ -192,6 +192,12 @@ class MonitoredList(MonitoredContainer, list):
     def append(self, item):
         self._add_item(item)
 
+    def __iadd__(self, items):
+        # list.__iadd__ extends without calling extend(): if the iterable raises midway, the items taken so far
+        # would stay in the list without ever being announced
+        self.extend(items)
+        return self
+
     def _add_item(
         self, item, inferred: bool = False, add_relation_to_the_graph: bool = True
     ):
